@@ -6,6 +6,7 @@
    well-formed and no deeper than max_level, for every universal set whose functional nodes have at least one
    argument and whose terminals have none. -/
 import TFV.Lemmas.Src.Grow
+import TFV.Generated.Src.Tree_random_tree
 import TFV.Properties.Tree
 
 namespace TFV.SrcTie
@@ -37,5 +38,18 @@ theorem C08_src_init_closed (full : Bool) (L fuel : Nat) (ar : Nat → Nat) (ran
 /-- the premises are satisfiable: a full tree of depth 1 over {f/2, x} -/
 example : growRun true 1 (fun s => if s = 9 then 2 else 0) (fun _ => 9) (fun _ => 1) 0 10 [] =
     some [(9, 2), (1, 0), (1, 0)] := by decide
+
+/-- `Tree.random_tree`: a coin between the two methods (`fullFn L` / `growFn L` = what `full_growing_method` /
+    `growing_method` return for the bound `L`), both called with the bound that was passed in -/
+theorem C08_src_random_tree (L key u : Int) (urest : List Int) (fullFn growFn : Int → List (List Int)) (a b c d : List Int)
+    (hf : fullFn L = [a, b]) (hg : growFn L = [c, d]) :
+    Tree_random_tree L key (u :: urest) fullFn growFn = some (if u < key then [a, b] else [c, d]) := by
+  have g0 : Imp.geti (u :: urest) (0 : Int) = u := rfl
+  have r0 : ∀ (x y : List Int), Imp.getrow [x, y] (0 : Int) = x := fun _ _ => rfl
+  have r1 : ∀ (x y : List Int), Imp.getrow [x, y] (1 : Int) = y := fun _ _ => rfl
+  unfold Tree_random_tree
+  by_cases h : u < key
+  · simp [h, g0, hf, r0, r1]
+  · simp [h, g0, hg, r0, r1]
 
 end TFV.SrcTie
